@@ -109,6 +109,7 @@ func genC23(r *simkit.Rand, tier string) *simkit.Plan {
 	wPrice := []int{r.Range(8, 14), r.Range(0, 1), r.Range(0, 1)}
 	wLimit := []int{r.Range(8, 14), r.Range(0, 1)}
 	pSelf := r.Float64() * 0.3
+	pShortfall := r.Float64() * 0.25
 	pData := r.Float64() * 0.5
 	pFault := 0.0
 	if p.Arm == "get_error" {
@@ -166,7 +167,17 @@ func genC23(r *simkit.Rand, tier string) *simkit.Plan {
 		if r.Chance(pData) {
 			dataLen = int64(r.Range(1, 12))
 		}
-		st.I = []int64{int64(snd), int64(rcv), vm, vd, pm, pa, lm, la, dataLen, int64(r.Weighted(wNonce))}
+		nm := int64(r.Weighted(wNonce))
+		if r.Chance(pShortfall) {
+			// aim at the insufficient-funds window: correct nonce, valid gas, balance >= fee but < value + fee,
+			// half of the time as a self transfer
+			vm, vd = pick(vBalMinusMoveFee, vBalMinusMoveFee, vBalMinusTxFee, vBalPlus), pick(1, 1, 2, 5, 1000)
+			pm, pa, lm, la, nm = 0, pick(0, 0, 1), 0, pick(0, 0, 1, 10, 1000), 0
+			if r.Chance(0.5) {
+				rcv = snd
+			}
+		}
+		st.I = []int64{int64(snd), int64(rcv), vm, vd, pm, pa, lm, la, dataLen, nm}
 		st.S = []string{abs}
 		if r.Chance(pFault) {
 			st.Fault = "get_error"
